@@ -31,6 +31,7 @@
   retry of `replace_all`; needed: "success implies the provider's generation at the start of the
   transaction was at most the one carried", see the report).
 -/
+import Placement.Lemmas.GuardTie
 import Placement.Lemmas.SchedRp2
 import Placement.Lemmas.SchedAlloc
 import Placement.Lemmas.WfExample
